@@ -546,13 +546,26 @@ func checkValidate(c *Ctx, v *ssa.Function, rule string) {
 		if b.Op == token.EQL {
 			ne = f
 		}
-		isStart := func(e ssa.Value) bool { return stripNum(reg0.Resolve(stripNum(e))) == ssa.Value(pStart) }
+		isStart := func(e ssa.Value) bool {
+			if stripNum(reg0.Resolve(stripNum(e))) == ssa.Value(pStart) {
+				return true
+			}
+			u := deepUnfold(cv(e)) // want.first() with want = span{start, limit}
+			return u.top() && stripNum(reg0.Resolve(u.v)) == ssa.Value(pStart)
+		}
+		// the numbers gathered in a small array first: got := [2]uint64{blocks[0].Num(), blocks[len-1].Num()}
+		if ux := unfoldV(x); ux.top() && ux.v != x {
+			x = stripNum(ux.v)
+		}
+		if uy := unfoldV(y); uy.top() && uy.v != y {
+			y = stripNum(uy.v)
+		}
 		if numOfElem(x, false) && isStart(y) || numOfElem(y, false) && isStart(x) {
 			firstNe = append(firstNe, ne...)
 		}
 		isLastWant := func(e ssa.Value) bool { // start+limit-1, in any arrangement
 			want := aff0.Of(pStart).add(aff0.Of(pLimit)).sub(konst(1))
-			return linEq(aff0.Of(e), want)
+			return linEq(aff0.Of(e), want) || linEq(affOfC(aff0, cv(e), 0), want)
 		}
 		if numOfElem(x, true) && isLastWant(y) || numOfElem(y, true) && isLastWant(x) {
 			lastNe = append(lastNe, ne...)
